@@ -176,6 +176,66 @@ def run(P, R, tier):
                     f'`{norm(stale[0]) if stale else ""}` supplies the files to read from names recorded inside a file: after the parts were renumbered (compaction of empty partitions) '
                     'or the dataset was moved, recorded names no longer exist', construct='dataset files come from the directory listing')
     R.floor('C11.e', 'ParquetDataset constructions in the Dask reader', nds, 1)
+    # C11.f: parsing a dtype string gives an instance of the class that was asked (`cls(...)`): a lazily created class-level table
+    # (`if cls.T is None: cls.T = {}` ... `return cls.T[key]`) is found through inheritance by every subclass once a base class created it
+    # (RingDtype derives from LineDtype), so 'ring[int64]' is answered with the cached LineDtype
+    gdt = P.cls(G + 'base.GeometryDtype')
+    ncfs = 0
+    for ci_ in [gdt] + [c_ for c_ in P.classes.values() if c_.mro and gdt in c_.mro and c_ is not gdt]:
+        mem_ = ci_.members.get('construct_from_string')
+        if mem_ is None or mem_[0] != 'func':
+            continue
+        cf = mem_[1]
+        ncfs += 1
+        clsp = cf.params[0] if cf.params else 'cls'
+        lazy = {t.attr for s_ in walk_own(cf.node) if isinstance(s_, ast.Assign) for t in s_.targets
+                if isinstance(t, ast.Attribute) and isinstance(t.value, ast.Name) and t.value.id == clsp}
+        for ret in [s_ for s_ in walk_own(cf.node) if isinstance(s_, ast.Return) and s_.value is not None]:
+            e_ = astq.expand(cf, ret.value)
+            shared = [x for x in ast.walk(e_) if isinstance(x, ast.Attribute) and isinstance(x.value, ast.Name) and x.value.id == clsp and x.attr in lazy]
+            keyed = any(isinstance(x, ast.Subscript) and any(isinstance(k_, ast.Name) and k_.id == clsp for k_ in ([x.slice] + (list(x.slice.elts) if isinstance(x.slice, ast.Tuple) else [])))
+                        for x in ast.walk(ret.value))
+            R.check(not shared or keyed, 'C11.f', cf, ret, 'a parsed dtype is built by the class that was asked (or taken from a table keyed by that class)',
+                    f'`{norm(ret)}` answers from the class-level table `{clsp}.{shared[0].attr if shared else ""}`, created lazily on whichever class parses first: subclasses find their base class\'s table '
+                    '(RingDtype -> LineDtype), so a ring column comes back as a line column', construct=f'{cf.qualname}: per-class result')
+    R.floor('C11.f', 'construct_from_string implementations', ncfs, 1)
+    # C11.g: GeoSeries(series_like) keeps the labels of its input: either the explicit index= still carries them, or the data handed to pandas is still
+    # the Series-like object.  Dropping a RangeIndex "because pandas recreates it" is only right for RangeIndex(0, n, 1), and only harmless while
+    # to_geometry_array passes Series-like geometry data through untouched.
+    gsi = P.func('spatialpandas.geoseries', 'GeoSeries.__init__')
+    tga = P.func(G + 'base', 'to_geometry_array')
+    ip_ = gsi.params[2] if len(gsi.params) > 2 else 'index'
+    drops = []
+    for s_ in walk_own(gsi.node):
+        if isinstance(s_, ast.Assign) and any(isinstance(t, ast.Name) and t.id == ip_ for t in s_.targets) and norm(s_.value) == 'None':
+            g_ = s_
+            guard = None
+            while getattr(g_, '_parent', None) is not None and g_._parent is not gsi.node:
+                g_ = g_._parent
+                if isinstance(g_, ast.If) and guard is None:
+                    guard = g_.test
+            gt_ = norm(guard) if guard is not None else ''
+            if not ('.start == 0' in gt_ and '.step == 1' in gt_):
+                drops.append((s_, gt_))
+    unwraps = []
+    for s_ in walk_own(tga.node):
+        if isinstance(s_, ast.If) and 'is_geometry_array(' in norm(s_.test) and not norm(s_.test).startswith('not '):
+            for b_ in s_.body:
+                if isinstance(b_, ast.Assign) and any(isinstance(t, ast.Name) and t.id == tga.params[0] for t in b_.targets):
+                    unwraps.append(b_)
+    if drops and unwraps:
+        R.bad('C11.g', gsi, drops[0][0], f'GeoSeries drops the input\'s index under `{drops[0][1]}` (any RangeIndex, also a sliced one such as 3..n) while to_geometry_array unwraps Series-like '
+              f'geometry data (`{norm(unwraps[0])}`): the labels are replaced by 0..n-1, and GeoDataFrame.__init__ (used by read_parquet) re-aligns the geometry column by label against the '
+              'frame\'s real index: geometries move to other rows', construct='GeoSeries keeps the labels of a Series-like input')
+    else:
+        R.ok('C11.g', gsi, None, 'the labels of a Series-like input reach pandas (explicit index= kept, or the data is still Series-like)', construct='GeoSeries keeps the labels of a Series-like input')
+    # C11.d (cont.): one piece per file: the delayed read takes `piece.path`, i.e. the whole file; pieces must therefore not be split into sub-fragments
+    for c in astq.own_calls(pr):
+        if isinstance(c.func, ast.Attribute) and c.func.attr in ('split_by_row_group', 'subset') or (isinstance(c.func, ast.Name) and c.func.id == 'getattr' and len(c.args) >= 2
+                                                                                                       and astq.const_str(c.args[1]) in ('split_by_row_group', 'subset')):
+        
+            R.bad('C11.d', pr, c, f'`{norm(c)}`: pieces are split into row-group fragments, but every piece is read by its path (the whole file): a file with k row groups is loaded k times',
+                  construct='one piece per file')
     # no global re-sort of the combined list afterwards
     plist = None
     for lp in astq.own_nodes(pr, ast.For):
